@@ -222,7 +222,9 @@ func (s *vksServer) place(k int, hash string, content []byte, mtu int) {
 	if err := ioutil.WriteFile(p, content, 0644); err != nil {
 		s.t.Fatal(err)
 	}
-	ts := s.base.Add(time.Duration(mtu)*vksUnit - s.shift)
+	// every placed file gets its own timestamp (a few hundred ns apart), as the model's inodes do: a
+	// trash-list item naming one copy's timestamp must not accidentally name another copy's
+	ts := s.base.Add(time.Duration(mtu)*vksUnit - s.shift + time.Duration(k+1)*100*time.Nanosecond)
 	if err := os.Chtimes(p, ts, ts); err != nil {
 		s.t.Fatal(err)
 	}
@@ -238,7 +240,7 @@ func (s *vksServer) placeTrash(k int, hash string, content []byte, dl int, mtu i
 	if err := ioutil.WriteFile(p, content, 0644); err != nil {
 		s.t.Fatal(err)
 	}
-	ts := s.base.Add(time.Duration(mtu)*vksUnit - s.shift)
+	ts := s.base.Add(time.Duration(mtu)*vksUnit - s.shift + time.Duration(k+1)*100*time.Nanosecond + 50*time.Nanosecond)
 	os.Chtimes(p, ts, ts)
 }
 
